@@ -280,6 +280,11 @@ func c11E2E(elems []c11Elem, stream []byte, cuts []int) (string, string) {
 	obs := w.Observe()
 	var got [][]byte
 	for _, p := range obs.Pkts {
+		if p.To != "127.0.1.2:7000" {
+			// what the proxy writes back on the sender's own connection (e.g. a CRLF answer to a keep-alive) is
+			// not a message it extracted from the stream
+			continue
+		}
 		m, err := ReadWire(p.Data)
 		if err != nil {
 			got = append(got, p.Data)
